@@ -80,13 +80,14 @@ TEXT = {
                 ref="DESIGN.md §4 C15", note="Trusted: harness oracles; std's lexicographic iterator comparison is what the crate delegates to.",
                 technique="bounded harnesses (native exhaustive enumeration)"),
     "C17": dict(level="Bounded (labelled as such). (1) For 8 vector-backed structural regions and FlatStack::merge_capacity, batches of 0..3 items, after reserve_items / reserve_regions (empty or populated target) / merge_regions, "
-                      "pushing exactly the announced contents keeps every capacity reported by heap_size constant. (2) With a counting global allocator in the native driver: the same regions, n = 2^6 .. 2^14 items — "
+                      "pushing exactly the announced contents keeps every capacity reported by heap_size constant (targets: empty, one item, or filled until a storage has 0..2 spare bytes); the same for 23 (region, ReserveItems form) pairs incl. announced-by-reference / pushed-owned. (2) With a counting global allocator in the native driver: the same regions, n = 2^6 .. 2^14 items — "
                       "without pre-sizing at most storages x (log2(elements)+2) allocator calls; after pre-sizing up to 64 announced items, zero allocator calls while pushing them. "
-                      "No contract can express an allocation count, so there is no deductive part; beyond n = 2^14 and beyond the eight regions nothing is decided.",
+                      "The logarithmic bound also for 19 further (composition, input form) pairs (arrays, PushIter, &&[T], &&str, columns, consecutive pairs, collapse, FlatStack). "
+                      "No contract can express an allocation count, so there is no deductive part; beyond n = 2^14 and beyond the catalogued regions and forms nothing is decided.",
                 ref="DESIGN.md §4 C17, §9.6", note="Trusted: harness oracle; capacities as reported by heap_size; allocator calls as seen by a counting #[global_allocator] in the replay binary (native builds only).",
                 technique="bounded harnesses (native exhaustive enumeration): capacities via heap_size and allocator-call counting"),
     "C18": dict(level="Bounded (labelled as such): recording-callback harnesses over 12 compositions and the three index containers (used <= capacity, number of pairs, sum(used) >= payload + index entries, monotone under push, "
-                      "after clear no payload accounted and no capacity shrank; index-container bytes equal the documented rule) plus a mechanical obligation that every storage-bearing field appears in its heap_size body.",
+                      "after clear no payload accounted and no capacity shrank — also after 300..4200 pushes; index-container bytes equal the documented rule) plus a mechanical obligation that every storage-bearing field appears in its heap_size body.",
                 ref="DESIGN.md §4 C18", note="Trusted: harness oracles. HuffmanContainer::heap_size is todo!() and DictionaryCodec's is empty: outside the catalogue.",
                 technique="bounded harnesses (native exhaustive enumeration) + program-text scan"),
 }
